@@ -594,3 +594,536 @@ pub fn cmp_match(a: u8, b: u8) -> u8 {
 pub fn min_len(a: &[u8], n: usize) -> usize {
     a.len().min(n) + core::cmp::max(n, 2)
 }
+
+// ---- loops over slices whose symbolic length is bounded by a guard ---------------------------------------------
+pub fn bounded_enumerate(out: &mut [u8], data: &[u8]) -> Result<usize, ()> {
+    if data.len() > 7 {
+        return Err(());
+    }
+    let mut n = 0;
+    for (i, b) in data.iter().enumerate() {
+        out[i + 2] = *b;
+        n += 1;
+    }
+    Ok(n)
+}
+
+pub fn bounded_bytes_builder(out: &mut [u8], data: &[u8]) -> Result<usize, ()> {
+    if data.len() > 6 {
+        return Err(());
+    }
+    let mut b = Bytes::<8>::new();
+    b.push(data.len() as u8);
+    b.extend_from_slice(data);
+    let s = b.as_slice();
+    out[..s.len()].copy_from_slice(s);
+    Ok(s.len())
+}
+
+pub fn bounded_flat_entries(out: &mut [u8], entries: &[[u8; 2]]) -> Result<usize, ()> {
+    if entries.len() > 3 {
+        return Err(());
+    }
+    let mut w = Writer::new(out);
+    w.put(entries.len() as u8);
+    for e in entries {
+        w.put_slice(e);
+    }
+    Ok(w.pos)
+}
+
+pub fn bounded_try_fold(data: &[u8]) -> Option<u8> {
+    if data.len() > 4 {
+        return None;
+    }
+    data.iter().try_fold(0u8, |a, b| a.checked_add(*b & 0x0F))
+}
+
+pub fn bounded_position(data: &[u8]) -> Option<usize> {
+    if data.len() > 5 {
+        return None;
+    }
+    data.iter().position(|b| *b == 0xFF)
+}
+
+pub fn bounded_sum_lens(parts: &[&[u8]]) -> usize {
+    if parts.len() > 3 {
+        return 0;
+    }
+    parts.iter().map(|p| p.len()).sum()
+}
+
+pub fn bounded_writer_iter(out: &mut [u8], data: &[u8]) -> Result<usize, ()> {
+    if data.len() > 5 || out.len() < 8 {
+        return Err(());
+    }
+    let (head, tail) = out.split_at_mut(2);
+    head[0] = 1;
+    head[1] = data.len() as u8;
+    tail.iter_mut().zip(data).for_each(|(d, s)| *d = *s);
+    Ok(2 + data.len())
+}
+
+pub fn bounded_rev_copy(out: &mut [u8; 8], data: &[u8]) -> usize {
+    let n = data.len().min(8);
+    for (d, s) in out.iter_mut().zip(data[..n].iter().rev()) {
+        *d = *s;
+    }
+    n
+}
+
+const LENS: [(u8, usize); 3] = [(1, 2), (2, 0), (9, 7)];
+pub fn const_table_ref(code: u8) -> usize {
+    LENS.iter().find(|(c, _)| *c == code).map_or(0, |(_, l)| *l)
+}
+
+const PAIRS: &[(u8, u8)] = &[(1, 2), (3, 4)];
+pub fn const_slice_ref(code: u8) -> u8 {
+    for (a, b) in PAIRS {
+        if *a == code {
+            return *b;
+        }
+    }
+    0
+}
+
+static STAT: [u8; 4] = [1, 2, 3, 4];
+pub fn static_table(i: usize) -> u8 {
+    STAT[i & 3]
+}
+
+pub fn mul_as_shift(a: bool, b: u8) -> u8 {
+    u8::from(a) * 0x10 | (b & 0x03)
+}
+
+pub fn expect_chunk(buf: &mut [u8], h: [u8; 4]) -> usize {
+    let (head, rest) = buf.split_first_chunk_mut::<4>().expect("buffer too small");
+    *head = h;
+    rest.len()
+}
+
+pub struct Body<'a> {
+    header: [u8; 1],
+    extra: Option<&'a [u8]>,
+    data: &'a [u8],
+}
+
+impl<'a> Body<'a> {
+    pub fn new(h: u8, extra: Option<&'a [u8]>, data: &'a [u8]) -> Self {
+        Body { header: [h], extra, data }
+    }
+    fn parts(&self) -> impl Iterator<Item = &[u8]> {
+        [Some(&self.header[..]), self.extra, Some(self.data)].into_iter().flatten()
+    }
+    pub fn len(&self) -> usize {
+        self.parts().map(<[u8]>::len).sum()
+    }
+    pub fn write(&self, buf: &mut [u8]) -> usize {
+        self.parts().fold(0, |offset, part| {
+            let end = offset + part.len();
+            buf[offset..end].copy_from_slice(part);
+            end
+        })
+    }
+}
+
+pub fn flatten_parts(buf: &mut [u8], h: u8, extra: &Option<&[u8]>, data: &[u8]) -> usize {
+    let b = Body::new(h, *extra, data);
+    if b.len() > buf.len() {
+        return 0;
+    }
+    b.write(buf)
+}
+
+// ---- round 5 idioms -----------------------------------------------------------------------------------------
+pub fn step_by_write(buf: &mut [u8; 8], v: u8) {
+    for i in (0..8).step_by(2) {
+        buf[i] = v;
+    }
+}
+
+pub fn skip_take(data: &[u8; 8]) -> u8 {
+    data.iter().skip(2).take(3).fold(0, |a, b| a ^ *b)
+}
+
+pub fn array_map(a: [u8; 3]) -> [u8; 3] {
+    a.map(|x| x & 0x7F)
+}
+
+pub fn take_while_count(data: &[u8; 4]) -> usize {
+    data.iter().take_while(|b| **b != 0).count()
+}
+
+pub fn while_let_pop(data: &[u8]) -> u8 {
+    let mut rest = data;
+    let mut x = 0u8;
+    let mut n = 0;
+    while let Some((first, tail)) = rest.split_first() {
+        if n == 3 {
+            break;
+        }
+        x ^= *first;
+        rest = tail;
+        n += 1;
+    }
+    x
+}
+
+pub fn labeled_break(table: &[[u8; 2]; 3], key: u8) -> u8 {
+    let mut found = 0;
+    'outer: for row in table {
+        for c in row {
+            if *c == key {
+                found = row[1];
+                break 'outer;
+            }
+        }
+    }
+    found
+}
+
+pub fn count_ones_bits(x: u8) -> u32 {
+    x.count_ones() + x.leading_zeros()
+}
+
+pub fn rotate_swap(x: u16) -> u16 {
+    x.rotate_left(8) ^ x.swap_bytes()
+}
+
+pub fn is_pow2(x: u8) -> bool {
+    x.is_power_of_two()
+}
+
+pub fn cell_take_update(c: &core::cell::Cell<u8>, v: u8) -> u8 {
+    let old = c.take();
+    c.set(old.wrapping_add(v));
+    c.replace(v)
+}
+
+pub fn nonzero_opt(x: u8) -> u8 {
+    match core::num::NonZeroU8::new(x) {
+        Some(n) => n.get() - 1,
+        None => 0xFF,
+    }
+}
+
+pub fn wrapping_struct(a: u8, b: u8) -> u8 {
+    (core::num::Wrapping(a) + core::num::Wrapping(b)).0
+}
+
+pub fn iter_repeat_fill(buf: &mut [u8; 4], v: u8) {
+    for (d, s) in buf.iter_mut().zip(core::iter::repeat(v)) {
+        *d = s;
+    }
+}
+
+pub fn peekable_pairs(data: &[u8; 4]) -> u8 {
+    let mut it = data.iter().peekable();
+    let mut x = 0;
+    while let Some(a) = it.next() {
+        if let Some(b) = it.peek() {
+            x ^= *a & **b;
+        }
+    }
+    x
+}
+
+pub fn scan_prefix(data: &[u8; 3]) -> u8 {
+    data.iter()
+        .scan(0u8, |acc, b| {
+            *acc = acc.wrapping_add(*b);
+            Some(*acc)
+        })
+        .last()
+        .unwrap_or(0)
+}
+
+pub fn chunks_exact_rem(data: &[u8; 7]) -> (u8, usize) {
+    let ch = data.chunks_exact(2);
+    let rem = ch.remainder().len();
+    let mut x = 0;
+    for c in ch {
+        x ^= c[0] | c[1];
+    }
+    (x, rem)
+}
+
+pub fn u16_len_math(len: usize) -> Option<u8> {
+    let l16 = u16::try_from(len).ok()?;
+    let total = l16.checked_add(5)?;
+    u8::try_from(total).ok()
+}
+
+pub fn debug_assert_len(buf: &mut [u8], v: u8) -> usize {
+    if buf.len() < 2 {
+        return 0;
+    }
+    debug_assert!(buf.len() >= 2);
+    buf[1] = v;
+    2
+}
+
+pub trait Encode {
+    const CODE: u8;
+    fn arg(&self) -> u8;
+    fn encode(&self, buf: &mut [u8; 2]) {
+        buf[0] = Self::CODE;
+        buf[1] = self.arg();
+    }
+}
+
+pub struct SetEid(pub u8);
+impl Encode for SetEid {
+    const CODE: u8 = 1;
+    fn arg(&self) -> u8 {
+        self.0
+    }
+}
+
+pub fn assoc_const_trait(buf: &mut [u8; 2], eid: u8) {
+    SetEid(eid).encode(buf)
+}
+
+pub fn dyn_dispatch(buf: &mut [u8; 2], eid: u8) -> u8 {
+    fn go(e: &dyn Fn(u8) -> u8, x: u8) -> u8 {
+        e(x)
+    }
+    let k = buf[0];
+    go(&|v| v ^ k, eid)
+}
+
+pub fn min_by_key_idx(data: &[u8; 3]) -> usize {
+    data.iter().enumerate().min_by_key(|(_, b)| **b).map_or(0, |(i, _)| i)
+}
+
+pub fn starts_with_prefix(data: &[u8]) -> bool {
+    data.starts_with(&[0x01, 0x02])
+}
+
+pub fn slice_eq(a: &[u8], b: &[u8; 3]) -> bool {
+    a == b
+}
+
+pub fn contains_byte(data: &[u8; 4], x: u8) -> bool {
+    data.contains(&x)
+}
+
+pub fn iter_sum_u16(data: &[u8; 3]) -> u16 {
+    data.iter().map(|b| u16::from(*b)).sum()
+}
+
+pub fn array_each_ref(a: &[u8; 2]) -> u8 {
+    let [x, y] = a.each_ref();
+    *x ^ *y
+}
+
+pub fn last_mut_set(buf: &mut [u8], v: u8) -> bool {
+    if let Some(l) = buf.last_mut() {
+        *l = v;
+        true
+    } else {
+        false
+    }
+}
+
+pub fn reverse_in_place(buf: &mut [u8; 4]) {
+    buf.reverse();
+}
+
+pub fn rsplit_tail(data: &[u8]) -> Option<(usize, u8)> {
+    let n = data.len().checked_sub(1)?;
+    let (body, pec) = data.split_at(n);
+    Some((body.len(), pec[0]))
+}
+
+pub fn clamp_len(n: usize) -> usize {
+    n.clamp(2, 9)
+}
+
+pub fn abs_diff_u8(a: u8, b: u8) -> u8 {
+    a.abs_diff(b)
+}
+
+pub fn bool_then(x: u8) -> Option<u8> {
+    (x > 3).then(|| x - 3)
+}
+
+pub fn option_zip_xor(a: Option<u8>, b: Option<u8>) -> Option<u8> {
+    a.zip(b).map(|(x, y)| x ^ y)
+}
+
+pub fn result_and_then(data: &[u8]) -> Result<u8, u8> {
+    data.first().copied().ok_or(1).and_then(|f| if f & 1 == 0 { Ok(f) } else { Err(2) })
+}
+
+pub struct Ident {
+    eid: core::cell::Cell<Option<core::num::NonZeroU8>>,
+}
+
+impl Ident {
+    pub fn get(&self) -> u8 {
+        self.eid.get().map_or(0, core::num::NonZeroU8::get)
+    }
+    pub fn set(&self, v: u8) {
+        self.eid.set(core::num::NonZeroU8::new(v));
+    }
+}
+
+pub fn nonzero_cell_roundtrip(id: &Ident, v: u8) -> (u8, u8) {
+    let before = id.get();
+    id.set(v);
+    (before, id.get())
+}
+
+pub fn rem_div_pow2(x: u8) -> (u8, u8) {
+    (x % 8, x / 16)
+}
+
+pub fn dyn_sink(out: &mut [u8; 4], a: &[u8; 2], b: &[u8; 2]) -> usize {
+    fn feed(sink: &mut dyn FnMut(&[u8]), a: &[u8], b: &[u8]) {
+        sink(a);
+        sink(b);
+    }
+    let mut pos = 0;
+    feed(
+        &mut |part: &[u8]| {
+            out[pos..pos + part.len()].copy_from_slice(part);
+            pos += part.len();
+        },
+        a,
+        b,
+    );
+    pos
+}
+
+pub fn len_sum_plus(a: &[u8], b: &[u8]) -> usize {
+    5 + a.len() + b.len() + 1
+}
+
+pub fn wrapping_rem_count(data: &[u8]) -> Option<u8> {
+    if data.len() < 4 || data.len() > 259 {
+        return None;
+    }
+    let counted = core::num::Wrapping(data.len()) - core::num::Wrapping(4);
+    Some((counted.0 % (1 << u8::BITS)) as u8)
+}
+
+pub fn rem_256_vs_cast(n: usize) -> bool {
+    (n % 256) as u8 == n as u8
+}
+
+pub fn strip_pec(data: &[u8], pec: u8) -> Option<usize> {
+    data.strip_suffix(&[pec]).map(|body| body.len())
+}
+
+pub fn flatten_try_fold(a: Option<&[u8]>, b: &[u8]) -> Option<usize> {
+    [a, Some(b)].into_iter().flatten().try_fold(0usize, |acc, p| acc.checked_add(p.len()))
+}
+
+pub fn flatten_find_map(a: Option<&[u8]>, b: &[u8]) -> Option<u8> {
+    [a, Some(b)].into_iter().flatten().find_map(|p| p.first().copied())
+}
+
+pub fn for_each_dyn(out: &mut [u8; 4], a: &[u8; 2], b: Option<&[u8; 2]>) -> usize {
+    let mut pos = 0;
+    let sink: &mut dyn FnMut(&[u8]) = &mut |part: &[u8]| {
+        out[pos..pos + part.len()].copy_from_slice(part);
+        pos += part.len();
+    };
+    [Some(&a[..]), b.map(|x| &x[..])].into_iter().flatten().for_each(sink);
+    pos
+}
+
+pub fn array_iter_nth_last(a: [u8; 4]) -> (Option<u8>, Option<u8>, usize) {
+    (a.into_iter().nth(2), a.into_iter().last(), a.into_iter().count())
+}
+
+pub fn slice_iter_nth_skip_while(a: &[u8; 5]) -> (Option<&u8>, usize) {
+    (a.iter().nth(3), a.iter().skip_while(|b| **b == 0).count())
+}
+
+pub fn shifted_guard(out: &mut [u8; 4], data: &[u8]) -> Result<usize, ()> {
+    let total = data.len().saturating_add(5);
+    if total >> u8::BITS != 0 {
+        return Err(());
+    }
+    out[2] = total as u8;
+    Ok(total)
+}
+
+pub fn shl_as_mul(buf: &mut [u8; 29], entries: &[[u8; 4]]) -> Result<usize, ()> {
+    let n = entries.len();
+    buf[0] = (n & usize::from(u8::MAX)) as u8;
+    if n.saturating_mul(4) > 28 {
+        return Err(());
+    }
+    for (i, e) in entries.iter().enumerate() {
+        buf[1 + (i << 2)..1 + (i << 2) + 4].copy_from_slice(e);
+    }
+    Ok((n << 2) + 1)
+}
+
+pub struct Sect<'a> {
+    head: [u8; 1],
+    extra: Option<&'a [u8]>,
+    data: &'a [u8],
+}
+
+impl<'a> Sect<'a> {
+    pub fn new(h: u8, extra: Option<&'a [u8]>, data: &'a [u8]) -> Self {
+        Sect { head: [h], extra, data }
+    }
+    fn sections(&self, sink: &mut dyn FnMut(&[u8])) {
+        let head: &[u8] = &self.head;
+        [Some(head), self.extra, Some(self.data)].into_iter().flatten().for_each(sink);
+    }
+    fn outer(&self, sink: &mut dyn FnMut(&[u8])) {
+        sink(&[0xAA]);
+        self.sections(sink);
+    }
+    pub fn total(&self) -> usize {
+        let mut size = 0;
+        self.outer(&mut |s| size += s.len());
+        size
+    }
+}
+
+pub fn dyn_sink_passed_down(h: u8, extra: &Option<&[u8]>, data: &[u8]) -> usize {
+    Sect::new(h, *extra, data).total()
+}
+
+pub fn dyn_direct_twice(a: &[u8]) -> usize {
+    fn go(sink: &mut dyn FnMut(&[u8]), a: &[u8]) {
+        sink(&[0xAA]);
+        sink(a);
+    }
+    let mut size = 0;
+    go(&mut |s| size += s.len(), a);
+    size
+}
+
+pub fn dyn_direct_then_inner(a: &[u8]) -> usize {
+    fn inner(sink: &mut dyn FnMut(&[u8]), a: &[u8]) {
+        sink(a);
+    }
+    fn go(sink: &mut dyn FnMut(&[u8]), a: &[u8]) {
+        sink(&[0xAA]);
+        inner(sink, a);
+    }
+    let mut size = 0;
+    go(&mut |s| size += s.len(), a);
+    size
+}
+
+pub fn sections_only(h: u8, extra: &Option<&[u8]>, data: &[u8]) -> usize {
+    let s = Sect::new(h, *extra, data);
+    let mut size = 0;
+    s.sections(&mut |p| size += p.len());
+    size
+}
+
+pub fn flatten3_for_each_closure(h: &[u8; 1], extra: &Option<&[u8]>, data: &[u8]) -> usize {
+    let mut size = 0;
+    [Some(&h[..]), *extra, Some(data)].into_iter().flatten().for_each(|p| size += p.len());
+    size
+}
